@@ -195,7 +195,7 @@ func (c *cache[K, V]) DeleteExpired() error {
 
 	c.mu.Lock()
 	for k, item := range c.items {
-		if now > item.expiration && item.expiration != int64(NoExpiration) {
+		if item.expired(now) {
 			if e := c.delete(k); e != nil {
 				err = errors.Join(err, e)
 			}
